@@ -689,8 +689,8 @@ MA('C07', 'L1 norm bound to l2 prox', DEFF, 'LpNorm.proximal',
    'return proximal_l2(space=self.domain)', 'LpNorm.proximal')
 MA('C07', 'left scalar mult prox ignores scalar', FUNF,
    'FunctionalLeftScalarMult.proximal.proximal_left_scalar_mult',
-   'return self.functional.proximal(sigma * self.scalar)',
-   'return self.functional.proximal(sigma)',
+   'if isinstance(sigma, (list, tuple)):...',
+   'pass',
    'FunctionalLeftScalarMult.proximal')
 MA('C07', 'translation prox forgets to shift back', PROX,
    'proximal_translation.translation_prox_factory',
@@ -2048,3 +2048,44 @@ MA('C19', 'alignment decided from the cosine of the angle',
    'if np.allclose(principal_vec, dilation * principal_default):...',
    'if np.isclose(np.dot(principal_vec, principal_default) / (pr_norm * pr_default_norm), 1.0):\n    matrix = np.eye(ndim)\nelse:\n    matrix = rotation_matrix_from_to(principal_default, principal_vec)',
    'R9b')
+# ---- round 11 ---------------------------------------------------------------
+PROXF = 'odl/solvers/nonsmooth/proximal_operators.py'
+MA('C07', 'sup-norm proximal: alias guard dropped', PROXF,
+   'proximal_linfty.ProximalLInfty._call',
+   'if x is out:...', 'pass', 'R7')
+MA('C03', 'L1 proximal: alias guard dropped', PROXF,
+   'proximal_l1.ProximalL1._call',
+   'if x is out:...', 'pass', 'R12')
+MA('C07', 'left scaling: a list of step sizes is not scaled',
+   'odl/solvers/functional/functional.py',
+   'FunctionalLeftScalarMult.proximal.proximal_left_scalar_mult',
+   'sigma = [sig * self.scalar for sig in sigma]',
+   'sigma = [sig for sig in sigma]', 'R6d')
+MA('C12', 'operator norms of the default DR steps squared',
+   'odl/solvers/nonsmooth/douglas_rachford.py', '_operator_norms',
+   'L_norms.append(Li.norm(estimate=True))',
+   'L_norms.append(Li.norm(estimate=True) ** 2)', 'R2n')
+MA('C12', 'CGN breakdown test against machine epsilon',
+   'odl/solvers/iterative/iterative.py', 'conjugate_gradient_normal',
+   'if sqnorm_q == 0.0:...',
+   'if sqnorm_q <= np.finfo(float).eps:\n    return', 'R8')
+MA('C15', 'Resampling.interp compares first and last axis only',
+   'odl/discr/discr_ops.py', 'Resampling.interp',
+   'if len(self.interp_byaxis) != 0 and all((s == self.interp_byaxis[0] for s in self.interp_byaxis[1:])):...',
+   'if len(self.interp_byaxis) != 0 and self.interp_byaxis[0] == self.interp_byaxis[-1]:\n    return self.interp_byaxis[0]\nelse:\n    return self.interp_byaxis',
+   'R7i')
+MA('C05', 'scalar multiplicand not conjugated in the adjoint',
+   'odl/operator/default_ops.py', 'MultiplyOperator.adjoint',
+   'if self.__domain_is_field:...',
+   'if self.__domain_is_field:\n    return InnerProductOperator(self.multiplicand)\nelif self.domain.is_complex and self.multiplicand in self.domain:\n    return MultiplyOperator(self.multiplicand.conj(), domain=self.range, range=self.domain)\nelse:\n    return MultiplyOperator(self.multiplicand, domain=self.range, range=self.domain)',
+   'MultiplyOperator[scalar multiplicand')
+MA('C05', 'Laplacian adjoint is the operator itself',
+   'odl/discr/diff_ops.py', 'Laplacian.adjoint',
+   'return Laplacian(self.range, self.domain, pad_mode=self.pad_mode, pad_const=0)',
+   'return self', 'Laplacian[range of lower precision]')
+MA('C08', 'conjugate of a scaled functional without the outer factor',
+   'odl/solvers/functional/functional.py',
+   'FunctionalLeftScalarMult.convex_conj',
+   'return self.scalar * self.functional.convex_conj * (1.0 / self.scalar)',
+   'return self.functional.convex_conj * (1.0 / self.scalar)',
+   'ConstantFunctional')
